@@ -191,6 +191,13 @@ class Run:
                     self.findings.append(("open-reports-success-with-incomplete-tag-list",
                                           f"open() returned {out!r} although the transport failed during it, and the driver holds {len(got_names)} of the controller's {len(want_names)} tags "
                                           f"(missing {sorted(set(want_names) - set(got_names))[:4]}) [{ctxt}]"))
+            body_ran = (op == "with_ok" and st == "ok") or (op == "with_exc" and isinstance(out, UserError)) or \
+                       (op == "with_commerr" and st == "exc" and "inside the with block" in str(out))
+            if body_ran and self.close_calls == closes_before:
+                # the block was entered (its body ran), so leaving it closes - whatever earlier with-blocks on this object did
+                self.findings.append(("with-block-left-without-close", f"the body of the with block ran ({op}, {st}) but leaving the block did not call close() [{ctxt}]"))
+                if getattr(self.drv, "connected", None):
+                    self.findings.append((f"connected-after-close:{op}", f"driver.connected is True after leaving the with block [{ctxt}]"))
             if op in ("with_exc", "with_commerr") and st == "ok":
                 self.findings.append(("with-block-swallows-exception", f"an exception raised inside the with block did not propagate [{ctxt}]"))
             if fired_now and self.close_calls > closes_before:
